@@ -132,7 +132,7 @@ class Models:
     BUILTIN_FUNCS = {"isinstance", "len", "abs", "round", "hash", "divmod", "min", "max", "int",
                      "type", "reversed", "sorted", "tuple", "list", "str", "format", "iter",
                      "next", "map", "range", "zip", "enumerate", "all", "any", "bool", "repr",
-                     "float", "issubclass", "getattr", "setattr", "id", "callable", "builtin_sum", "dict",
+                     "float", "issubclass", "getattr", "setattr", "vars", "id", "callable", "builtin_sum", "dict",
                      "set", "frozenset", "object", "filter", "hasattr", "staticmethod"}
 
     def global_name(self, module, name, node):
@@ -357,6 +357,14 @@ class Models:
             if getattr(v, "opaque_updates", None):
                 self.I.unsupported(node, "truth of a dict with opaque content")
             return bool(self.dict_view(v, node)) if hasattr(self, "dict_view") else bool(v.items)
+        if isinstance(v, GlobalMapV) and self.is_memo_map(v) and not getattr(v, "record_types", None):
+            # a process-global memo / lazily filled table: empty until something is stored (Engine A follows the miss)
+            for e in self.visible_effects():
+                if e[0] == "mapcall" and isinstance(e[1], GlobalMapV) and e[1].name == v.name and e[2] == "clear":
+                    return False
+                if e[0] == "setitem" and isinstance(e[1], GlobalMapV) and e[1].name == v.name:
+                    return True
+            return False
         if isinstance(v, TermV):
             return not self.term_is_empty(v, node)
         if isinstance(v, OpaqueV):
@@ -706,6 +714,32 @@ class Models:
                 e = self.prog.lookup_attr(self.prog.cls("Quantity"), attr)
                 if e is not None and isinstance(e, ast.Constant):
                     return self.constant(e.value, node)
+                # an attribute some method of the metaclass keeps equal to an expression over the class's other state
+                # (`cls.<attr> = len(cls._converters)` after every change of the list): it *is* that expression, now
+                derived = []
+                for mci in self.prog.mro(self.prog.cls(meta)):
+                    for mfi in mci.methods.values():
+                        if mfi.node is None or not hasattr(mfi.node, "args") or not mfi.node.args.args:
+                            continue
+                        me = mfi.node.args.args[0].arg
+                        for n_ in ast.walk(mfi.node):
+                            if isinstance(n_, ast.Assign) and len(n_.targets) == 1 and isinstance(n_.targets[0], ast.Attribute) \
+                                    and n_.targets[0].attr == attr and isinstance(n_.targets[0].value, ast.Name) \
+                                    and n_.targets[0].value.id == me:
+                                names = [x for x in ast.walk(n_.value) if isinstance(x, ast.Name)]
+                                attrs_ = [x for x in ast.walk(n_.value) if isinstance(x, ast.Attribute) and
+                                          isinstance(x.value, ast.Name) and x.value.id == me and x.attr != attr]
+                                if attrs_ and all(x.id == me or x.id in ("len", "tuple", "sorted", "bool", "min", "max", "sum")
+                                                  for x in names):
+                                    derived.append((mfi, me, n_.value))
+                if derived and len({ast.dump(d[2]) for d in derived}) == 1:
+                    mfi, me, expr = derived[0]
+                    from .interp import Frame
+                    self.I.frames.append(Frame(mfi, mfi.module, mfi.cls, {me: obj}))
+                    try:
+                        return self.I.eval(expr)
+                    finally:
+                        self.I.frames.pop()
                 # an attribute every quantity class gets from its metaclass when it is created: what the metaclass
                 # __init__ / __new__ assigns to it, if that is a constant or an empty container
                 for mname in ("__init__", "__new__"):
@@ -1048,6 +1082,8 @@ class Models:
                             self.I.unsupported(n, f"{g.name}.update with an opaque argument")
                         for k_, v_ in pairs:
                             self.st.effects.append(("setitem", g, k_, v_, self.where(n)))
+                    for k_, v_ in kwargs.items():
+                        self.st.effects.append(("setitem", g, StrV(k_), v_, self.where(n)))
                     return NONE
                 if attr == "add" and len(args) == 1:
                     # a set used as a memo of facts: recorded as a store of (key, True)
@@ -1885,11 +1921,17 @@ class Models:
         return not (getattr(g, "registry", False) or getattr(g, "convtable", False) or getattr(g, "unit_values", False)
                     or getattr(g, "owner", None) is not None or g.name.startswith("_unit_map("))
 
+    def visible_effects(self):
+        """Effects, latest first, that a read of memoised state may see: everything on the path - or, during a
+        recomputation with nothing memoised, only what that recomputation itself has stored."""
+        st = self.st
+        if st.memo_hidden:
+            return list(reversed(st.effects[getattr(st, "cold_mark", 0):]))
+        return list(reversed(st.effects)) + list(reversed(st.prior_effects))
+
     def memo_stored(self, g, key, node):
         """(value,) stored under an equal key earlier on this path and not removed since, else None."""
-        if self.st.memo_hidden:
-            return None
-        for e in list(reversed(self.st.effects)) + list(reversed(self.st.prior_effects)):
+        for e in self.visible_effects():
             if e[0] == "mapcall" and isinstance(e[1], GlobalMapV) and e[1].name == g.name and e[2] in ("clear",):
                 return None
             if e[0] == "mapcall" and isinstance(e[1], GlobalMapV) and e[1].name == g.name and \
